@@ -148,12 +148,35 @@ def declare(reg):
                      "forall(o, Ref_Cfg, implies(o != self, o._cli_opts == old(o._cli_opts)))",
                  ])
 
-    # _load_config_file is not under contract (ConfigParser): assumed to apply at most one _update_dict(file map)
-    reg.interface("InsightsConfig", "_load_config_file", params=dict(self=CFG, fname=PY), defaults=dict(fname="None"),
-                  modifies=["InsightsConfig.__dict__"], ghosts=dict(applied=(Map(STR, PY), "{}")),
-                  ensures=APPLIED("applied"),
-                  note="_load_config_file (ConfigParser based) is assumed to end in one self._update_dict(<file map>) or to leave the "
-                       "options untouched (an empty map); it prints an error and returns on a malformed file")
+    # _load_config_file: ends in one self._update_dict(<file map>) or leaves the options untouched (an empty map), and nothing escapes it; the
+    # ConfigParser object is an assumed library
+    CPR = Ref("CParser")
+    reg.cls("CParser")
+    reg.exc_extra.update({"Error": "Exception"})          # ConfigParser.Error (classes are matched by their last name)
+    reg.external("ConfigParser.RawConfigParser", returns=CPR, raises={})
+    HAS = "uf('cp_has_section', BOOL, self, s)"
+    reg.interface("CParser", "read", params=collections.OrderedDict(self=CPR, f=PY), raises={"Error": None})
+    reg.interface("CParser", "has_section", params=collections.OrderedDict(self=CPR, s=PY), returns=BOOL, pure=True, raises={}, ensures=["result == %s" % HAS])
+    # asking a parser for a section it does not have is a ConfigParser.Error (NoSectionError); for a section it has, items() delivers a mapping and
+    # the typed getters deliver a value or reject the text with ValueError (the keys asked for come from items(), so NoOptionError does not arise)
+    reg.interface("CParser", "items", params=collections.OrderedDict(self=CPR, s=PY), returns=Map(STR, PY), pure=True, raises={"Error": "not %s" % HAS},
+                  note="items(section) is consumed only through dict(...): typed as the mapping it becomes")
+    for g in ("getint", "getfloat", "getboolean"):
+        reg.interface("CParser", g, params=collections.OrderedDict(self=CPR, s=PY, k=STR), returns=PY, raises={"ValueError": None, "Error": "not %s" % HAS},
+                      raise_frame="unchanged")
+    reg.external("constants.app_name", returns=PY, pure=True)
+    reg.external("sys.stdout.write", drop=True)
+    reg.contract(M, "InsightsConfig._load_config_file", params=collections.OrderedDict(self=CFG, fname=PY), defaults=dict(fname="None"),
+                 modifies=["InsightsConfig.__dict__"], ghosts=dict(applied=(Map(STR, PY), "{}")),
+                 locals=dict(applied=Map(STR, PY), d=Map(STR, PY), parsedconfig=CPR, section=PY),
+                 ghost_on=[("self._update_dict(d)", "applied = d", "before")],
+                 loops={0: ["keys(d) == keys(lold(d))", "self.__dict__ == old(self.__dict__)", "forall(o, Ref_Cfg, o.__dict__ == old(o.__dict__))",
+                            # the typed getters are asked for the section that was found
+                            "uf('cp_has_section', BOOL, parsedconfig, section)"]},
+                 no_merge=("*",),
+                 raises={},          # nothing escapes: an unreadable / malformed file is reported and the options stay as they are
+                 ghost_final=dict(applied=(Map(STR, PY), "applied")),
+                 ensures=APPLIED("applied"))
     FINAL = [OFFLINE_CLEAN, OUTPUT_CLEAN] + NO_CONFLICT
     reg.contract(M, "InsightsConfig.load_all", params=dict(self=CFG), returns=CFG,
                  requires=["self._cli_opts is None"],
